@@ -2,6 +2,7 @@ package sx
 
 import (
 	"fmt"
+	"strconv"
 	"go/types"
 	"math/big"
 	"strings"
@@ -152,6 +153,24 @@ func registerModels(P *Program) {
 		}
 		return fmt.Sprintf(format, goargs...), true
 	}
+	m["strconv.Atoi"] = func(ex *Exec, fn *ssa.Function, args []Value) (Value, bool) {
+		str, ok := args[0].(string)
+		if !ok {
+			ex.unsupported("strconv.Atoi of a symbolic string")
+		}
+		v, err := strconv.Atoi(str)
+		if err != nil {
+			return Tuple{smt.I64(0), ex.freshError("strconv.Atoi")}, true
+		}
+		return Tuple{smt.I64(int64(v)), Iface{}}, true
+	}
+	m["strconv.Itoa"] = func(ex *Exec, fn *ssa.Function, args []Value) (Value, bool) {
+		v, ok := term(args[0]).ConstInt64()
+		if !ok {
+			ex.unsupported("strconv.Itoa of a symbolic int")
+		}
+		return strconv.Itoa(int(v)), true
+	}
 	m["fmt.Sprint"] = func(ex *Exec, fn *ssa.Function, args []Value) (Value, bool) { return "<fmt>", true }
 	for _, n := range []string{"fmt.Println", "fmt.Printf", "fmt.Print", "fmt.Fprintf", "fmt.Fprintln"} {
 		m[n] = noop
@@ -196,6 +215,30 @@ func registerModels(P *Program) {
 		ex.assume(smt.Lt(r, mod.I))
 		ex.draws = append(ex.draws, r)
 		return Tuple{ex.newBig(BigVal{I: r, Tag: r.Name}), Iface{}}, true
+	}
+	// SumFourSquares: stubbed by its contract (the algorithm itself is C19 territory):
+	// four non-negative integers whose squares sum to n, each at most sqrt(n)
+	m[commonPkg+".SumFourSquares"] = func(ex *Exec, fn *ssa.Function, args []Value) (Value, bool) {
+		if ex.Ob.Param("real_foursquares", 0) == 1 {
+			return nil, false
+		}
+		n := ex.argBig(args[0], "SumFourSquares")
+		if v, ok := n.I.ConstInt(); ok && v.Sign() == 0 {
+			return Tuple{ex.newBig(bigConst(0)), ex.newBig(bigConst(0)), ex.newBig(bigConst(0)), ex.newBig(bigConst(0))}, true
+		}
+		var hi *big.Int
+		if n.I.Hi != nil && n.I.Hi.Sign() >= 0 {
+			hi = new(big.Int).Sqrt(n.I.Hi)
+		}
+		sum := smt.I64(0)
+		out := make(Tuple, 4)
+		for i := 0; i < 4; i++ {
+			d := ex.freshInt("sq", big.NewInt(0), hi)
+			sum = smt.Add(sum, smt.Mul(d, d))
+			out[i] = ex.newBig(BigVal{I: d})
+		}
+		ex.assume(smt.Eq(sum, n.I))
+		return out, true
 	}
 	m[commonPkg+".ModInverse"] = func(ex *Exec, fn *ssa.Function, args []Value) (Value, bool) {
 		a, n := ex.argBig(args[0], "ModInverse"), ex.argBig(args[1], "ModInverse")
